@@ -104,6 +104,9 @@ impl Node {
     pub fn boot(dir: &Path, opts: &NodeOpts) -> Result<Node, String> {
         std::fs::create_dir_all(dir).map_err(|e| e.to_string())?;
         let db_config = DBConfig { path: dir.join("db"), ..Default::default() };
+        if let Some(a) = &opts.ancient {
+            std::fs::create_dir_all(a).map_err(|e| e.to_string())?;
+        }
         let builder = SharedBuilder::new("ckbmc", dir, &db_config, opts.ancient.clone(), runtime(), opts.consensus.clone())
             .map_err(|e| format!("SharedBuilder::new failed: {e:?}"))?;
         let mut builder = builder.header_map_tmp_dir(Some(dir.join("header_map")));
